@@ -128,6 +128,45 @@ def check_flags(ctx, name, version, elements, plain):
                             ctx.violation(site, 'span', 'element %s: linear span changed' % z, replay)
 
 
+def fs_shells(fs):
+    """one pseudo-shell per function of a function set (for the span oracle)"""
+    out = []
+    for l, f in fs:
+        pairs = sorted(f)
+        out.append({'angular_momentum': [l], 'exponents': [str(x) for x, _ in pairs], 'coefficients': [[str(c) for _, c in pairs]]})
+    return out
+
+
+def check_op_pairs(ctx, name, version, elements, plain):
+    """the three operations combined with each other through get_basis.  What the combination must return does not depend
+    on the order in which the library applies them: with remove_free_primitives the functions contracting >= 2 primitives
+    (optimize_general may re-express them: same span), with uncontract_segmented the unit functions of whatever is left"""
+    bse = impl.bse()
+    for combo in (('remove_free_primitives', 'optimize_general'), ('remove_free_primitives', 'uncontract_segmented'),
+                  ('uncontract_segmented', 'optimize_general'), ('remove_free_primitives', 'optimize_general', 'uncontract_segmented')):
+        kw = {f: True for f in combo}
+        r = impl.call(bse.get_basis, name, version=version, elements=elements, **kw)
+        ctx.case((name, version, tuple(elements), combo), nontrivial(plain), 'get_basis:' + '+'.join(combo))
+        site = 'api.get_basis[' + '+'.join(combo) + ']'
+        replay = {'kind': 'flags', 'name': name, 'version': version, 'elements': elements, 'flags': list(combo)}
+        if ctx.model is not None:
+            ctx.compare('get_basis_options', r, ctx.model.call('get_basis_options', plain, kw), replay)
+        if r[0] != 'ok':
+            ctx.violation(site, 'raises:' + r[1], 'get_basis(%s) raises %s' % (kw, r[1]), replay)
+            continue
+        for z, el in plain['elements'].items():
+            if has_mixed_fused({'elements': {z: el}}):
+                continue
+            o = r[1]['elements'][z]
+            kept = expected_rm_free(el) if 'remove_free_primitives' in combo else oracle.element_fs(el)
+            if 'uncontract_segmented' in combo:
+                want = {(l, frozenset([(x, Decimal(1))])) for l, f in kept for x, _ in f}
+                if oracle.element_fs(o) != want:
+                    ctx.violation(site, 'unit-functions', 'element %s: not exactly the unit functions of the primitives of the functions that are kept' % z, replay)
+            elif not oracle.same_span(fs_shells(kept), o.get('electron_shells', [])):
+                ctx.violation(site, 'span', 'element %s: the result does not span the functions contracting >= 2 primitives' % z, replay)
+
+
 def work_store(ctx, item):
     name, version = item
     r = store.get_basis(name, version)
@@ -142,6 +181,7 @@ def work_store(ctx, item):
     p = store.get_basis(name, version, elements=list(b['elements']))
     if p[0] == 'ok':
         check_flags(ctx, name, version, list(b['elements']), p[1])
+        check_op_pairs(ctx, name, version, list(b['elements']), p[1])
 
 
 def work_generated(ctx, seed):
@@ -173,6 +213,7 @@ def run(ctx):
         pairs = store.all_pairs(md)
     else:
         pairs = [(n, md[n]['latest_version']) for n in store.sample_names(ctx.rng, 40, md)]
+        pairs += [(n, md[n]['latest_version']) for n in ('cc-pvdz', 'lanl2dz') if n in md]     # free primitives shared with contractions
     store.parallel(ctx, work_store, pairs)
     store.parallel(ctx, work_generated, [ctx.seed * 100019 + i for i in range(ctx.budget(240, 20000))])
     store.parallel(ctx, work_patho, [ctx.seed * 11 + i for i in range(ctx.budget(30, 600))])
